@@ -2,6 +2,8 @@ import NA.Proofs.IosConv
 import NA.Proofs.IosConvBlock
 import NA.Proofs.IosConvPlan
 import NA.Proofs.IosConvExec
+import NA.Proofs.IosConvMove
+import NA.Proofs.IosConvSuppr
 /-!
 # IOS ACL planner (`diffIOSACLs`, model `planIOS`): numbering, block equivalence, convergence
 
@@ -15,12 +17,17 @@ and the target `news M`.  The device is the strict IOS device of `NA.Spec.AclDev
 * `block_swap_same_semantics`, `blockEq_same_semantics`, `blockEquiv_same_semantics`.
 * `ios_plan_converges_no_moves_partial`, `ios_plan_converges_no_suppression_partial`: executing the
   plan on the resequenced device ends in exactly the target, if no move is suppressed.
+* `ios_plan_final_state`: for EVERY script the strict device accepts the plan and ends in the target
+  with the lines of the suppressed moves left at their old positions.
+* `ios_plan_block_equiv_partial`: without remark lines (and without `log`-only changes of moved
+  lines) that final state is block-equivalent to the target, for every script.
 * `ios_remark_suppression_counterexample` (F-C02r): with remark lines the current code does not
   even converge up to block equivalence.  `ios_split_block_move_not_suppressed`: regression for
   the committed fix of F-C02.
 
-Not proved: `ios_plan_block_equiv` (plans WITH suppressed moves end block-equivalent to the target,
-for remark-free ACLs); see the end of this file for the exact missing lemma.
+Not proved: block equivalence when a suppressed move also changes the `log` attribute (then the
+device keeps the old attribute; the lists are equal only modulo `mkey`).  With remark lines the
+statement is false (F-C02r).
 -/
 namespace NA.Acl.IosAclProps
 open NA.Acl
@@ -139,6 +146,75 @@ theorem ios_plan_shape (M : List Cell) (hboth : (M.any fun c => c.old && c.new) 
       planIOS M = (((addIdx M).map (newItem M)).zip flags).flatMap (itemOps M) ++ delsOf M :=
   planIOS_shape M hboth (lookups_nodup M hnn)
 
+/-- For EVERY script (suppressed moves or not): the strict device accepts the plan command by
+command, and the final list is the target except that the line of every suppressed move
+(`S`) still sits at its old position (`finalMask`).  `g` are the planner's suppression decisions. -/
+theorem ios_plan_final_state (M : List Cell)
+    (hboth : (M.any fun c => c.old && c.new) = true) (hjunk : noJunk M = true)
+    (hruns : runsShort M)
+    (hno : ((olds M).map (·.mkey)).Nodup) (hnn : ((news M).map (·.mkey)).Nodup)
+    (dev : IosAcl) (hdev : iosLines dev = olds M) :
+    ∃ (g : Nat → Bool) (tr : List IosAcl) (s : IosAcl),
+      planIOS M = (addIdx M).flatMap (cellOpsG M g) ++ delsOf M ∧
+      iosTrace (iosReseq dev 10000 10000) (planIOS M) = some tr ∧
+      (iosReseq dev 10000 10000 :: tr).getLast? = some s ∧
+      iosLines s = masked M (finalMask M ((addIdx M).filter (supprAt M g))) := by
+  obtain ⟨g, hg⟩ := plan_general M hboth hnn
+  have h := exec_general M hjunk hruns hno hnn g
+  rw [← hg, ← reseq_numbered M dev hdev] at h
+  obtain ⟨tr, ht, hl⟩ := iosExec_trace _ _ _ h
+  exact ⟨g, tr, _, hg, ht, hl, numbered_lines M _⟩
+
+/-- Suppressed moves allowed: if every suppressed move is harmless (`SupprOK`: same line, and all
+cells between old and new position that stay on the device have the same action or are remarks),
+the device ends block-equivalent to the target — hence with the same verdict for every packet. -/
+theorem ios_plan_block_equiv_of_supprOK (M : List Cell)
+    (hboth : (M.any fun c => c.old && c.new) = true) (hjunk : noJunk M = true)
+    (hruns : runsShort M)
+    (hno : ((olds M).map (·.mkey)).Nodup) (hnn : ((news M).map (·.mkey)).Nodup)
+    (dev : IosAcl) (hdev : iosLines dev = olds M)
+    (hok : ∀ g : Nat → Bool, planIOS M = (addIdx M).flatMap (cellOpsG M g) ++ delsOf M →
+      SupprOK M ((addIdx M).filter (supprAt M g))) :
+    ∃ tr s, iosTrace (iosReseq dev 10000 10000) (planIOS M) = some tr ∧
+      (iosReseq dev 10000 10000 :: tr).getLast? = some s ∧
+      BlockEq (iosLines s) (news M) ∧ ∀ p, eval (iosLines s) p = eval (news M) p := by
+  obtain ⟨g, tr, s, hg, ht, hl, hs⟩ := ios_plan_final_state M hboth hjunk hruns hno hnn dev hdev
+  have hbe : BlockEq (iosLines s) (news M) := by
+    rw [hs]
+    exact finalMask_blockEq M hno hnn _ (fun j hj => (List.mem_filter.mp hj).1)
+      (List.Nodup.sublist List.filter_sublist
+        (List.Nodup.sublist List.filter_sublist List.nodup_range)) (hok g hg)
+  exact ⟨tr, s, ht, hl, hbe, fun p => hbe.eval_eq p⟩
+
+/-- `ios_plan_block_equiv` for ACLs WITHOUT remark lines (the complement of F-C02r), and where a
+deleted and an inserted line with the same `mkey` are the same line (no `log`-only change among
+the moved lines): whatever moves the planner suppresses, the strict device accepts the plan and
+ends block-equivalent to the target, with the same verdict for every packet. -/
+theorem ios_plan_block_equiv_partial (M : List Cell)
+    (hboth : (M.any fun c => c.old && c.new) = true) (hjunk : noJunk M = true)
+    (hruns : runsShort M)
+    (hno : ((olds M).map (·.mkey)).Nodup) (hnn : ((news M).map (·.mkey)).Nodup)
+    (hnr : ∀ c ∈ M, c.line.remark = false)
+    (hsame : ∀ i ∈ delIdx M, ∀ j ∈ addIdx M,
+      (M.getD i default).line.mkey = (M.getD j default).line.mkey →
+      (M.getD i default).line = (M.getD j default).line)
+    (dev : IosAcl) (hdev : iosLines dev = olds M) :
+    ∃ tr s, iosTrace (iosReseq dev 10000 10000) (planIOS M) = some tr ∧
+      (iosReseq dev 10000 10000 :: tr).getLast? = some s ∧
+      BlockEq (iosLines s) (news M) ∧ ∀ p, eval (iosLines s) p = eval (news M) p := by
+  obtain ⟨g, hplan, hg⟩ := plan_general' M hboth hnn
+  have h := exec_general M hjunk hruns hno hnn g
+  rw [← hplan, ← reseq_numbered M dev hdev] at h
+  obtain ⟨tr, ht, hl⟩ := iosExec_trace _ _ _ h
+  have hbe : BlockEq (iosLines (numbered M (finalMask M ((addIdx M).filter (supprAt M g)))))
+      (news M) := by
+    rw [numbered_lines]
+    exact finalMask_blockEq M hno hnn _ (fun j hj => (List.mem_filter.mp hj).1)
+      (List.Nodup.sublist List.filter_sublist
+        (List.Nodup.sublist List.filter_sublist List.nodup_range))
+      (supprOK_noremark M hjunk hruns hnr hsame g hg)
+  exact ⟨tr, _, ht, hl, hbe, fun p => hbe.eval_eq p⟩
+
 /-! ## 4. Witnesses -/
 
 namespace W
@@ -222,6 +298,21 @@ example : (MN.any fun c => c.old && c.new) = true ∧ noJunk MN = true ∧ runsS
       (MN.getD i default).line.mkey ≠ (MN.getD j default).line.mkey) :=
   ⟨by decide, by decide, (runsShortB_iff _).mp (by decide), by decide, by decide, by decide⟩
 
+/-- a script whose only move is suppressed (the plan is empty): device `[p1,p2,p3]`, target
+`[p2,p3,p1]` -/
+def MX : List Cell :=
+  [⟨W.p1, true, false⟩, ⟨W.p2, true, true⟩, ⟨W.p3, true, true⟩, ⟨W.p1, false, true⟩]
+
+example : planIOS MX = [] ∧ olds MX ≠ news MX ∧
+    (MX.any fun c => c.old && c.new) = true ∧ noJunk MX = true ∧ runsShort MX ∧
+    ((olds MX).map (·.mkey)).Nodup ∧ ((news MX).map (·.mkey)).Nodup ∧
+    (∀ c ∈ MX, c.line.remark = false) ∧
+    (∀ i ∈ delIdx MX, ∀ j ∈ addIdx MX,
+      (MX.getD i default).line.mkey = (MX.getD j default).line.mkey →
+      (MX.getD i default).line = (MX.getD j default).line) :=
+  ⟨by decide, by decide, by decide, by decide, (runsShortB_iff _).mp (by decide), by decide,
+   by decide, by decide, by decide⟩
+
 example : BlockEq [W.p1, W.p2, W.denyN] [W.p2, W.p1, W.denyN] :=
   BlockEq.swap [] [W.denyN] W.p1 W.p2 (Or.inr (Or.inr rfl))
 
@@ -232,7 +323,8 @@ def obligations : List Lean.Name := [
   ``ios_insert_by_number, ``ios_delete_by_number, ``ios_reseq_is_numbered,
   ``block_swap_same_semantics, ``blockEq_same_semantics, ``blockEquiv_same_semantics,
   ``ios_exec_reaches_target, ``ios_plan_converges_no_moves_partial,
-  ``ios_plan_converges_no_suppression_partial, ``ios_plan_shape,
+  ``ios_plan_converges_no_suppression_partial, ``ios_plan_shape, ``ios_plan_final_state,
+  ``ios_plan_block_equiv_of_supprOK, ``ios_plan_block_equiv_partial,
   ``ios_remark_suppression_counterexample, ``ios_split_block_move_not_suppressed]
 
 end NA.Acl.IosAclProps
